@@ -5,6 +5,42 @@ ROOT = os.path.dirname(os.path.dirname(os.path.abspath(__file__)))
 
 # id -> (technique, level text, level note, design ref)
 CHECKS = {
+ "C01": ("property-based testing (proptest, stateful op sequences with injected nested-send failures): conservation and solvency invariants recomputed from the state tree",
+         "Seeded random exploration of system histories (real miners created through power.CreateMiner, pre-commit / ProveCommitSectors3 / Window PoSt / faults / recoveries / terminations / extensions / rewards with penalties / withdrawals / disputes / consensus-fault reports / top-ups, cron tick at every epoch, failures injected into nested sends of messages and ticks); after every message and tick: sum of all balances == genesis total (burning only moves FIL to f099, which never sends), each miner's balance >= pre-commit deposits + vesting funds + initial pledge, the market's balance >= its escrow total, no actor reports 'balance invariants broken', nothing panics, every completed call validated its caller. SimVM refuses transfers above the sender's balance like the FVM, so the reward actor cannot pay more than it holds without the message failing visibly (a failed reward payout inside a successful message is reported). Market escrow solvency under deal traffic and payment-channel solvency are explored by the same inequalities inside the C06 and C16 engines.",
+         "Trusted: SimVM semantics (FVM-style transfers/rollback, syscall errors, call-depth limit); marker-controlled fake proofs and constant randomness; cron tick run at every epoch; histories of ≤100 ops over ≤4 miners and about a week of chain time per case in the quick tier.",
+         "§3 C01"),
+ "C02": ("property-based testing (proptest, stateful op sequences): per-sector power formula recomputed from sectors and compared with partition/deadline/claim/network totals",
+         "Same generated system histories, biased to PoSt with skipped sets, fault/recovery declarations, missed deadlines at exact boundaries, terminations, extensions and bulk onboarding; after every message and tick each miner's claim in the power actor must equal the sum of the independently recomputed raw/QA power of its sectors that are proven (not in an unproven set), not faulty, not terminated; the network raw/QA totals must equal the sums of claims under the consensus-minimum rule (mainnet and documented devnet minimums, incl. the 'fewer than N miners above minimum' regime); sectors of a partition in a deadline that closed without a covering proof must hold no power from that deadline's end; no sector stays live past the deadline end at which its expiration or fault time-out is due (42-day and, in the thorough tier, 180-day stretches of chain time are generated).",
+         "Trusted: SimVM semantics (FVM-style transfers/rollback, syscall errors, call-depth limit); marker-controlled fake proofs and constant randomness; cron tick run at every epoch; histories of ≤100 ops over ≤4 miners and about a week of chain time per case in the quick tier. Verified-deal weight is always zero in this engine (QA power == raw power x 10 / 10).",
+         "§3 C02"),
+ "C03": ("property-based testing (proptest, stateful op sequences): collateral ledgers recomputed from sectors, pre-commits and the vesting table",
+         "Same generated system histories with rewards, penalties, withdrawals and terminations; after every message and tick: recorded initial pledge == sum of pledge of live sectors + sectors awaiting early-termination processing, pre-commit deposit total == sum of outstanding pre-commit deposits, locked funds == sum of the vesting table, all non-negative; power actor's total pledge collateral + creation deposits == sum over miners of (initial pledge + locked funds) [shifted equation because of known finding create-miner-deposit-missing-from-pledge-total], never negative; an operation valid for the miner never fails with the pledge-total error.",
+         "Trusted: SimVM semantics (FVM-style transfers/rollback, syscall errors, call-depth limit); marker-controlled fake proofs and constant randomness; cron tick run at every epoch; histories of ≤100 ops over ≤4 miners and about a week of chain time per case in the quick tier. The unshifted equation does not hold on the pinned tree (known finding, see known_findings.json); a large idle 'cushion' miner keeps the recorded total non-negative so that the search continues past it.",
+         "§3 C03"),
+ "C04": ("property-based testing (proptest, stateful op sequences): partition/deadline/expiration-queue summaries recomputed from individual sectors",
+         "Same generated system histories, biased to bulk onboarding (>=94 sectors so that deadlines hold several partitions), compaction, faults, recoveries, terminations, extensions; after every message and tick: allocated-sector bitfield only grows and covers every sector ever pre-committed/proven, a pre-commitment naming an already allocated number is never accepted, every on-chain sector sits in exactly one partition of one deadline, faults/recoveries/unproven/terminated sets nest and exclude as defined, per-partition live/unproven/faulty/recovering power, per-deadline live/total sector counts, faulty power and daily fee, and every expiration-queue entry (on-time/early sets, pledge, active/faulty power, fee deduction) equal a recomputation from the sectors; early-termination queues reference terminated sectors only.",
+         "Trusted: SimVM semantics (FVM-style transfers/rollback, syscall errors, call-depth limit); marker-controlled fake proofs and constant randomness; cron tick run at every epoch; histories of ≤100 ops over ≤4 miners and about a week of chain time per case in the quick tier.",
+         "§3 C04"),
+ "C05": ("property-based testing (proptest, stateful op sequences with failures injected beneath cron callbacks): cron totality and scheduling invariants",
+         "Same generated system histories with the tick executed at every epoch and failures injected into sends beneath cron callbacks; every tick and every callback in its trace must succeed or be tolerated without dropping a miner's claim, nothing may panic, no message may report 'balance invariants broken'; a miner with sectors, deposits or vesting funds must have exactly one pending deadline callback in the power actor's queue and its recorded deadline must contain the next epoch after each tick [idle miners holding only vesting funds are exempt: known finding vesting-funds-without-deadline-cron]; expirations and fault time-outs due at a deadline end must be gone from the queues after that tick, and while early terminations are pending a processing event must be scheduled for the next epoch.",
+         "Trusted: SimVM semantics (FVM-style transfers/rollback, syscall errors, call-depth limit); marker-controlled fake proofs and constant randomness; cron tick run at every epoch; histories of ≤100 ops over ≤4 miners and about a week of chain time per case in the quick tier. 'Eventually' clauses are checked as bounded response (by the deadline end / an event scheduled for the next epoch); 180-day on-time expirations are reached only in the thorough tier.",
+         "§3 C05"),
+ "C15": ("property-based testing (proptest, stateful op sequences with injected nested-send failures): per-step charge accounting against a recomputed fee schedule",
+         "Same generated system histories, biased to faults, skipped sectors, missed deadlines, terminations, PoSts with invalid proofs followed by disputes inside/outside the dispute window, consensus-fault reports, block penalties, 42-day stretches (fault time-outs, expired pre-commitments) and failures injected into nested sends; for every message and tick and every miner: (fee-debt delta + value burnt by the miner + value paid to the reporter) must equal the charges recomputed from the previous state view: deposits of pre-commitments that expired, continued-fault fee for the power already faulty when the deadline closed, capped daily fee of the live sectors, FIP-0098 termination fee (>= 2% of pledge, written from the specification) for every early-termination entry processed, 3x block penalty, consensus-fault penalty (one epoch reward; reporter share <= 1/20 and <= what was taken), dispute penalty (projection + 20 FIL + 4 FIL reporter reward, two-sided bound on the disputed power); nothing is charged by any other method; penalties are never negative; after a successful WithdrawBalance / PreCommitSectorBatch2 / DeclareFaultsRecovered the fee debt is zero.",
+         "Trusted: SimVM semantics (FVM-style transfers/rollback, syscall errors, call-depth limit); marker-controlled fake proofs and constant randomness; cron tick run at every epoch; histories of ≤100 ops over ≤4 miners and about a week of chain time per case in the quick tier. The repo's pure 'expected reward for power' projection is used as a primitive and is itself banded (2e-3 relative) by a floating-point integral of the linear estimates where these are well-conditioned. Steps in which the network's smoothed QA power estimate has decayed to zero (all power gone for weeks; the projection degenerates to one epoch reward for any power) are outside the domain, skipped and counted.",
+         "§3 C15"),
+ "C10": ("property-based testing (proptest, stateful op sequences): registry claims vs. sector records recomputed after every step (subset-sum backing oracle)",
+         "Same generated system histories with a verified client: datacap allocations to real miners (piece sizes from 1 MiB to the sector size, terms/expiry at and around the policy limits), pre-commitments whose unsealed CID commits to the planned pieces, ProveCommitSectors3 activating them (claims through the registry), ExtendSectorExpiration2 with maintained / dropped / missing / foreign claims aimed at add-days, the claims' term end -2..+2 and the last 30 days of the sector's life, ExtendClaimTerms by client or stranger (incl. decreases), RemoveExpiredClaims/Allocations by anyone; after every message and tick, for every live sector with verified weight: weight is an exact multiple of (expiration - power base), the implied space <= sector size, and some subset of the registry's claims for that provider+sector adds up to that space with every member started at/after the activation and allowing the expiration within [term_min, term_max]; verified space shrinks only through an extension made within the final 30 days and never grows; claim term_max never decreases, claims vanish only after their term ended, allocations vanish only by a matching claim at/before expiration or after expiration; ids are never reused. The QA power that the weight implies is judged by the C02 clause group in the same engine.",
+         "Trusted: SimVM semantics (FVM-style transfers/rollback, syscall errors, call-depth limit); marker-controlled fake proofs and constant randomness; cron tick run at every epoch; histories of ≤100 ops over ≤4 miners and about a week of chain time per case in the quick tier. Market-mediated (deal) allocations are not generated; direct allocations exercise the same registry and miner paths.",
+         "§3 C10"),
+ "C13": ("model-based property testing (proptest, stateful op sequences): three reference state machines (owner, worker key, beneficiary) + capability probes",
+         "Generated control histories on a real miner (optionally cron-active, optionally multisig-owned) with 8 principals: ChangeOwnerAddress by anyone naming anyone, ChangeWorkerAddress with control sets, ConfirmChangeWorkerAddress, ChangeBeneficiary proposals/approvals with matching or mismatching quota/expiry incl. back-to-owner, withdrawals, epoch advances to the worker-key delay and beneficiary expiry -1/0/+1; after every message owner/worker/controls/beneficiary/pending records must equal the reference machines, an accepted call the protocol forbids is a violation, and capability probes on a snapshot must succeed exactly for the model's right holders.",
+         "Trusted: SimVM; principals are account actors or a multisig. An implementation rejecting what the model allows is labelled, not reported.",
+         "§3 C13"),
+ "C14": ("property-based testing (proptest, stateful op sequences): vesting-table reference model + withdrawal entitlement oracle",
+         "Same generated system histories biased to rewards, penalties, withdrawals by owner/worker/stranger and day-scale advances; the vesting table is mirrored by a reference model (each locked amount vests in 180 daily steps starting the day after, quantised to the miner's proving-period offset); after every message and tick: locked funds may decrease only by what has vested by now or by penalties actually paid (burn + reporter share), the sum unlocked per schedule equals the locked amount exactly, each successful withdrawal pays exactly min(requested, balance - locked - deposits - pledge - fee debt [after repaying debt in full]), only to the beneficiary, only on request of owner/beneficiary, within quota/expiry, never while early terminations are pending.",
+         "Trusted: SimVM semantics (FVM-style transfers/rollback, syscall errors, call-depth limit); marker-controlled fake proofs and constant randomness; cron tick run at every epoch; histories of ≤100 ops over ≤4 miners and about a week of chain time per case in the quick tier. Beneficiary quota/expiry clauses are exercised mainly by the C13 engine's withdrawal probes.",
+         "§3 C14"),
  "C12": ("property-based testing (proptest, stateful op sequences) against a trace-driven reference wallet model",
          "Seeded random exploration of generated multisig histories (propose/approve/cancel, signer/threshold/lock changes through the wallet, re-entrant self-calls, a second multisig as signer, epoch advances) on the real actor in SimVM; after every message the wallet state must equal an independent reference model advanced by the invocation trace, every send must be a pending transaction with a quorum of distinct current signers, sent once, never dipping into the locked amount. Exploration is the right level: the property quantifies over unbounded histories and the oracle is exact per history.",
          "Trusted: SimVM's message semantics (transfer-before-call, rollback of failed calls, call-depth limit 1024), CBOR decoding with the actor's parameter types, ID-address signers only. No Wasm/gas.",
